@@ -31,7 +31,7 @@ NOT_DECIDED = ["peak memory / run time multiples (runtime quantities)", "allocat
                "cost of deep recursion on deeply nested XML/HTML/RTF", "range(n) loops whose body consumes input on every iteration (listed as residual)"]
 TRUSTED = ["defusedxml forbids entity expansion / DTD retrieval", "LZMADecompressor.decompress(data, max_length) returns at most max_length bytes",
            "Path.stat() follows symbolic links and reports the size of the object open() reads"]
-FLOORS = {"C12-EMPTY": 6, "C12-LIMIT": 10, "C12-AMP": 6, "C12-DECOMP": 2, "C12-XML": 2}
+FLOORS = {"C12-REGEX": 1, "C12-EMPTY": 6, "C12-LIMIT": 10, "C12-AMP": 6, "C12-DECOMP": 2, "C12-XML": 2}
 
 
 # ----------------------------------------------------------------------------------------------- LIMIT
@@ -451,4 +451,57 @@ def rule_empty(ctx: Ctx) -> RuleReport:
     return rep
 
 
-RULES = [rule_limit, rule_amp, rule_decomp, rule_xml, rule_empty]
+WHOLE_INPUT_PATTERNS = [(X + "mail/mbox_email_extractor.py", "MBOX_FROM_PATTERN")]  # run over the complete input with finditer
+
+
+def rule_regex(ctx: Ctx) -> RuleReport:
+    """Run time within a fixed multiple of the input: a pattern that is run over the whole input must not be polynomially ambiguous."""
+    import re as _re
+
+    from sa.engine.redos import Undecided, exponential_ambiguity, polynomial_ambiguity
+    from sa.rules.c01 import _RE_FUNCS, _pattern_of
+
+    rep = RuleReport("C12-REGEX", "patterns that scan the whole input (the mailbox separator) have no two adjacent repeats that can share a run of characters (IDA on the pattern's automaton: such a pattern needs quadratic time on a long failing line)")
+    for rel, const in WHOLE_INPUT_PATTERNS:
+        m_ = ctx.p.module(rel)
+        node = m_.assigns.get(const)
+        if not (isinstance(node, ast.Call) and (dotted(node.func) or "") == "re.compile" and node.args):
+            raise AnalysisError(f"C12-REGEX: {const} is no longer a re.compile(...) constant")
+        got = _pattern_of(ctx, m_, node.args[0])
+        if not got or got[1]:
+            raise AnalysisError(f"C12-REGEX: the pattern of {const} is not a constant")
+        fl = 0
+        for a in list(node.args[1:]) + [k.value for k in node.keywords]:
+            for x in ast.walk(a):
+                if isinstance(x, ast.Attribute) and isinstance(x.value, ast.Name) and x.value.id == "re" and isinstance(getattr(_re, x.attr, None), _re.RegexFlag):
+                    fl |= getattr(_re, x.attr)
+        rep.unit(f"{rel}::{const}")
+        text = got[0] if isinstance(got[0], str) else got[0].decode("latin-1")
+        try:
+            w = exponential_ambiguity(got[0], int(fl)) or polynomial_ambiguity(got[0], int(fl))
+        except Undecided as exc:
+            raise AnalysisError(f"C12-REGEX: {const}: {exc}")
+        if w is None:
+            rep.ok({"pattern": const, "text": text[:70], "ambiguity": "none"})
+        else:
+            rep.fail(Finding("C12-REGEX", rel, const, "ambiguous: " + text[:100], f"the pattern `{text[:80]}` is run over the whole input and {w}: a line of n characters after 'From ' costs n^2 steps (seconds for 20 000 characters, hours for a megabyte)", line=node.lineno))
+    # the other patterns of the library: counted, not judged (they run on fields or on documents whose size the guards bound)
+    n_poly = 0
+    for m_ in ctx.p.modules.values():
+        if "/tests/" in m_.rel:
+            continue
+        for c in ast.walk(m_.tree):
+            if isinstance(c, ast.Call) and c.args and (dotted(c.func) or "").startswith("re.") and (dotted(c.func) or "").split(".")[-1] in _RE_FUNCS:
+                got = _pattern_of(ctx, m_, c.args[0])
+                if not got or got == ("Q", True):
+                    continue
+                try:
+                    if polynomial_ambiguity(got[0], 0):
+                        n_poly += 1
+                except Exception:
+                    pass
+    rep.info.append(f"{n_poly} other patterns are polynomially ambiguous (RTF group patterns, length parsers); they are applied to single fields or to documents and are not judged")
+    return rep
+
+
+RULES = [rule_limit, rule_amp, rule_decomp, rule_xml, rule_empty, rule_regex]
